@@ -12,6 +12,8 @@
 (*   cancel   r                   the receiver of r is dropped             *)
 (*   advance  ms                  the (paused) clock moves                 *)
 (*   close    how                 the inbound side ends (eof / err)        *)
+(*   poll                         the multiplexer's task ran for no other  *)
+(*                                reason                                   *)
 (* every event has  p  (the multiplexer was polled after it) and, if so,   *)
 (* obs = what the receivers yielded afterwards, in order:                  *)
 (*   [r, k = "ok", tag, rid (ID field of the response handed over)]        *)
@@ -20,9 +22,12 @@
 (*                    response this is a normal completion (allowed at any *)
 (*                    time), without one it is a failure like "err"        *)
 (* The monitor keeps the observable state of Mux.tla with the REAL wire    *)
-(* IDs and allows every choice Mux allows (duplicates handed over or       *)
-(* dropped, refusal of a send, expiry of any pending request when the      *)
-(* clock has moved).  It decides known / unknown IDs itself.               *)
+(* IDs and allows every choice Mux allows (a request that has been         *)
+(* answered may complete at any time, refusal of a send, expiry of any     *)
+(* pending request when the clock has moved).  It decides known / unknown  *)
+(* IDs itself.  The multiplexer is polled exactly when its task would be   *)
+(* woken (see the driver), so "did not reach it" means: the multiplexer    *)
+(* went to rest without having handed the response over.                   *)
 EXTENDS Naturals, Sequences, FiniteSets, TLC, Json, IOUtils
 
 Rec == ndJsonDeserialize(IOEnv.TRACE)
@@ -37,10 +42,11 @@ VARIABLES l, c,
           canFail,   \* requests that may fail at the next poll (just sent; clock moved)
           mustFail,  \* requests that have to fail at the next poll (nothing went on the wire)
           closing,   \* the inbound side has ended, not yet polled
+          garb,      \* an undecodable message has been queued since the last poll
           closed,
           skipping, bad
 
-mvars == <<n, st, wid, got, owed, must, canFail, mustFail, closing, closed>>
+mvars == <<n, st, wid, got, owed, must, canFail, mustFail, closing, garb, closed>>
 tvars == <<l, c, mvars, skipping, bad>>
 
 NoId == 70000
@@ -49,7 +55,7 @@ PendingOf(s) == {r \in R : s[r] = "pending"}
 
 Init ==
     /\ l = 1 /\ c = "none" /\ n = 0 /\ st = <<>> /\ wid = <<>> /\ got = <<>> /\ owed = <<>>
-    /\ must = {} /\ canFail = {} /\ mustFail = {} /\ closing = FALSE /\ closed = FALSE
+    /\ must = {} /\ canFail = {} /\ mustFail = {} /\ closing = FALSE /\ garb = FALSE /\ closed = FALSE
     /\ skipping = FALSE /\ bad = 0
 
 e == Rec[l]
@@ -59,7 +65,7 @@ Reset ==
     /\ c' = e.case /\ n' = e.n
     /\ st' = [r \in 1..e.n |-> "new"] /\ wid' = [r \in 1..e.n |-> NoId]
     /\ got' = [r \in 1..e.n |-> 0] /\ owed' = [r \in 1..e.n |-> {}]
-    /\ must' = {} /\ canFail' = {} /\ mustFail' = {} /\ closing' = FALSE /\ closed' = FALSE
+    /\ must' = {} /\ canFail' = {} /\ mustFail' = {} /\ closing' = FALSE /\ garb' = FALSE /\ closed' = FALSE
     /\ skipping' = FALSE /\ bad' = bad
 
 (***************************************************************************)
@@ -67,7 +73,7 @@ Reset ==
 (* (a record of the intermediate values).                                  *)
 (***************************************************************************)
 Cur == [st |-> st, wid |-> wid, owed |-> owed, must |-> must, canFail |-> canFail,
-        mustFail |-> mustFail, closing |-> closing]
+        mustFail |-> mustFail, closing |-> closing, garb |-> garb]
 
 \* requests a response with this ID is for
 For(id) == {r \in R : st[r] = "pending" /\ wid[r] = id}
@@ -82,6 +88,7 @@ Pre ==
       [] e.ev = "cancel"  -> e.r \in R /\ st[e.r] = "pending"
       [] e.ev = "advance" -> TRUE
       [] e.ev = "close"   -> ~closed
+      [] e.ev = "poll"    -> TRUE
       [] OTHER            -> FALSE
 
 After ==
@@ -92,8 +99,8 @@ After ==
                         !.mustFail = IF e.w THEN mustFail ELSE mustFail \cup {e.r}]
       [] e.ev = "deliver" ->
             [Cur EXCEPT !.owed = [r \in R |-> IF r \in For(e.id) THEN owed[r] \cup {e.tag} ELSE owed[r]],
-                        \* C16_FirstReaches: the first response for a pending request
-                        !.must = must \cup {<<r, e.tag>> : r \in {q \in For(e.id) : got[q] = 0 /\ owed[q] = {}}}]
+                        \* C16_Reaches: every response that arrives with the ID of a pending request
+                        !.must = must \cup {<<r, e.tag>> : r \in For(e.id)}]
       [] e.ev = "cancel" ->
             [Cur EXCEPT !.st = [st EXCEPT ![e.r] = "cancelled"],
                         !.owed = [owed EXCEPT ![e.r] = {}],
@@ -102,7 +109,13 @@ After ==
                         !.mustFail = mustFail \ {e.r}]
       [] e.ev = "advance" -> [Cur EXCEPT !.canFail = PendingOf(st)]
       [] e.ev = "close"   -> [Cur EXCEPT !.closing = TRUE]
+      [] e.ev = "garbage" -> [Cur EXCEPT !.garb = TRUE]
       [] OTHER            -> Cur
+
+\* Mux!GarbageCloses: the multiplexer may end the connection over an undecodable message; if its
+\* stream has ended at this poll and such a message was among the arrivals, this is a close
+AfterPolled ==
+    LET a == After IN [a EXCEPT !.closing = a.closing \/ (a.garb /\ e.ended)]
 
 (***************************************************************************)
 (* Step 2: what the receivers yielded after the poll                       *)
@@ -128,27 +141,32 @@ ItemOK(a, obs, i) ==
 
 ObsOK(a, obs) ==
     /\ \A i \in 1..Len(obs) : ItemOK(a, obs, i)
-    \* C16_FirstReaches (waived if the request fails in the same poll)
+    \* C16_Reaches (waived if the request ends in the same poll: expired first, or regarded as complete)
     /\ \A m \in a.must : m[2] \in TagsOf(obs, m[1]) \/ m[1] \in FailedIn(obs)
     \* C16_CloseFailsAll
     /\ a.closing => PendingOf(a.st) \subseteq FailedIn(obs)
     /\ a.mustFail \subseteq FailedIn(obs)
 
+\* evaluate a state-level condition as a value: TLC would otherwise split its disjunctions into
+\* separate (identical) successor states, exponentially many for long observations
+Holds(b) == b = TRUE
+
 Allowed ==
-    /\ Pre
-    /\ LET a == After IN
-       IF ~e.p THEN
+    /\ Holds(Pre)
+    /\ IF ~e.p THEN
+          LET a == After IN
           /\ st' = a.st /\ wid' = a.wid /\ owed' = a.owed /\ must' = a.must /\ canFail' = a.canFail
-          /\ mustFail' = a.mustFail /\ closing' = a.closing
+          /\ mustFail' = a.mustFail /\ closing' = a.closing /\ garb' = a.garb
           /\ UNCHANGED <<n, got, closed>>
        ELSE
-          /\ ObsOK(a, e.obs)
+          LET a == AfterPolled IN
+          /\ Holds(ObsOK(a, e.obs))
           /\ st' = [r \in R |-> IF r \in FailedIn(e.obs) THEN "failed" ELSE a.st[r]]
           /\ wid' = a.wid
           /\ got' = [r \in R |-> got[r] + OkCount(e.obs, r)]
           /\ owed' = [r \in R |-> IF r \in FailedIn(e.obs) THEN {} ELSE a.owed[r] \ TagsOf(e.obs, r)]
           /\ must' = {} /\ canFail' = {} /\ mustFail' = {}
-          /\ closing' = FALSE /\ closed' = a.closing
+          /\ closing' = FALSE /\ garb' = FALSE /\ closed' = a.closing
           /\ UNCHANGED n
 
 \* which requirement the event breaks (first that applies)
@@ -166,10 +184,10 @@ Why ==
         IF e.ev = "send" /\ e.r \in R /\ st[e.r] = "new" /\ ~closed /\ ~DistinctOK
         THEN "C16_DistinctIds: the ID on the wire is that of another in-flight request"
         ELSE "ADAPTER: event not possible in this state"
-    ELSE LET a == After IN
+    ELSE LET a == IF e.p THEN AfterPolled ELSE After IN
         IF BadItems(a, e.obs) # {} THEN WhyItem(a, e.obs, CHOOSE i \in BadItems(a, e.obs) : \A j \in BadItems(a, e.obs) : i <= j)
         ELSE IF ~(\A m \in a.must : m[2] \in TagsOf(e.obs, m[1]) \/ m[1] \in FailedIn(e.obs))
-            THEN "C16_FirstReaches: the response for a pending request did not reach it"
+            THEN "C16_Reaches: a response that arrived with the ID of a pending request did not reach it"
         ELSE IF a.closing /\ ~(PendingOf(a.st) \subseteq FailedIn(e.obs))
             THEN "C16_CloseFailsAll: a request is still pending after the connection closed"
         ELSE "C16_SendRefused: nothing went on the wire but the request did not fail"
